@@ -488,6 +488,14 @@ def run_shard(spec):
     # char-set algebra: every (or s1 s2) of (possibly complemented) sets over {a, ab, b, abc}, both orders, in every tier
     sets = [("set", cs, neg) for cs in ("a", "ab", "b", "abc") for neg in (False, True)]
     algebra = [("or", [x, y]) for x in sets for y in sets if x != y] + [("or", [x, y, ("lit", "c")]) for x in sets[:4] for y in sets[4:]]
+    # case folding over alternations of single characters / one-character strings / sets (compiled into one char-set state)
+    singles = [("lit", "a"), ("lit", "b"), ("set", "ab", False), ("str", "a"), ("set", "b", False), ("lit", "A")]
+    for x in singles:
+        for y in singles:
+            if x != y:
+                algebra.append(("nocase", ("or", [x, y])))
+                algebra.append(("nocase", ("rep", 1, None, ("or", [x, y]), True)))
+                algebra.append(("seq", [("bos",), ("nocase", ("or", [x, y])), ("lit", "b")]))
     fam += [n for i, n in enumerate(algebra) if i % spec["nshards"] == spec["shard"]]
     for n in fam:
         f = check_sre(n, maxlen, res, rng)
